@@ -463,7 +463,14 @@ func (r Rule) splitPos(path string) int {
 	if httpserver.CaseSensitivePath {
 		return strings.Index(path, r.SplitPath)
 	}
-	return strings.Index(strings.ToLower(path), strings.ToLower(r.SplitPath))
+	// search the original path (not a lower-cased copy, whose byte offsets can differ from
+	// the original's) for the first window that matches the split string in any letter case
+	for i := 0; i+len(r.SplitPath) <= len(path); i++ {
+		if strings.EqualFold(path[i:i+len(r.SplitPath)], r.SplitPath) {
+			return i
+		}
+	}
+	return -1
 }
 
 // AllowedPath checks if requestPath is not an ignored path.
